@@ -202,9 +202,14 @@ var vfBatchMode bool
 // return a short count; the caller has to loop).
 var vfBatchPartial bool
 
+// vfBatchFault: once, a multi-message batch is accepted only in part and the call for the remainder fails (a transient
+// error between two sendmmsg calls): what was accepted is on the wire and must not be sent again.
+var vfBatchFault bool
+
 type vfBatch struct {
-	s     *vfSock
-	calls int
+	s          *vfSock
+	calls      int
+	faultState int
 }
 
 func vfBatchConnHook(conn net.PacketConn) batchConn {
@@ -243,6 +248,19 @@ func (b *vfBatch) ReadBatch(ms []ipv4.Message, flags int) (int, error) {
 
 func (b *vfBatch) WriteBatch(ms []ipv4.Message, flags int) (int, error) {
 	b.calls++
+	if vfBatchFault {
+		switch {
+		case b.faultState == 0 && len(ms) > 1 && b.calls > 2:
+			b.faultState = 1
+			if _, err := b.s.WriteTo(ms[0].Buffers[0], ms[0].Addr); err != nil {
+				return 0, err
+			}
+			return 1, nil
+		case b.faultState == 1:
+			b.faultState = 2
+			return 0, errVfInjected
+		}
+	}
 	for i := range ms {
 		if _, err := b.s.WriteTo(ms[i].Buffers[0], ms[i].Addr); err != nil {
 			return i, err
